@@ -1,11 +1,66 @@
 package main
 
 import (
+	"fmt"
 	"go/token"
 	"go/types"
+	"strings"
 
 	"golang.org/x/tools/go/ssa"
 )
+
+// C20.R7 — defaults that depend on another option are computed where all overrides have been applied. The README's
+// defaults ("CDNOriginHost defaults to the remote host given on the command line or by the plugin host") refer to the
+// final values; ck-client overrides RemoteHost & co. between ParseConfig and ProcessRawConfig. A RawConfig field that is
+// filled from a different RawConfig field anywhere else freezes a value that a later override no longer reaches.
+func c20R7(c *Ctx, rule string) {
+	c.Rule(rule, "cross-option defaults only in ProcessRawConfig: outside it no RawConfig field is assigned a value derived from another RawConfig field", 1)
+	p := c.P
+	raw := p.Named("internal/client", "RawConfig")
+	prc := p.Func("internal/client", "RawConfig.ProcessRawConfig")
+	if raw == nil || prc == nil {
+		c.Undecided(rule, "anchor client.RawConfig / ProcessRawConfig", "-", "not found")
+		return
+	}
+	st := raw.Underlying().(*types.Struct)
+	isRawField := map[*types.Var]bool{}
+	for i := 0; i < st.NumFields(); i++ {
+		isRawField[st.Field(i)] = true
+	}
+	n, bad := 0, 0
+	for _, f := range p.RepoFuncs {
+		if f == prc || p.inUnit(prc, f) || strings.HasSuffix(p.Pos(f.Pos()), "_test.go") {
+			continue
+		}
+		allInstrs(f, func(i ssa.Instruction) {
+			s, ok := i.(*ssa.Store)
+			if !ok {
+				return
+			}
+			dst, _ := fieldVar(s.Addr)
+			if dst == nil || !isRawField[dst] {
+				return
+			}
+			n++
+			var src *types.Var
+			mentions(s.Val, func(x ssa.Value) bool {
+				if fv, _ := fieldVar(x); fv != nil && isRawField[fv] && fv != dst {
+					src = fv
+					return true
+				}
+				return false
+			})
+			if src != nil {
+				bad++
+				c.Bad(rule, "RawConfig."+dst.Name()+" assigned from RawConfig."+src.Name()+" in "+shortFn(f), c.at(i),
+					"the option is filled from another option before the command line / plugin host overrides are applied: the documented default follows the final value, this one is frozen at parse time")
+			}
+		})
+	}
+	if bad == 0 {
+		c.OK(rule, fmt.Sprintf("%d assignments to RawConfig fields outside ProcessRawConfig; none derives one option from another", n), "-", "constants, flags and environment values only")
+	}
+}
 
 // C20.R6 — empty alternative names never become a server name: every element of RawConfig.AlternativeNames that reaches
 // LocalConnConfig.MockDomainList (the list the per-session SNI is drawn from) passes a non-empty test on the way; the
